@@ -1,6 +1,6 @@
 """C09 - dictionaries keyed by value equality: Eq/Hash coherence discipline of ObjKey (static clauses)."""
 import re
-from .core import (CheckError, find_match, arm_region, pat_str, strip_ref, origins, only_when, pat_paths,
+from .core import (builds_error, CheckError, find_match, arm_region, pat_str, strip_ref, origins, only_when, pat_paths,
                    Registry, CallGraph, op_local)
 
 META = {
@@ -273,14 +273,29 @@ def run(F, rep, tier):
         rep.viol('R9.3', tk + '|stream-unvalidated', 'the stream arm forces the stream but does not re-validate the resulting list', force[0].loc())
     ck = F.anchor('core::check_if_valid_key')
     ckb = F.body(ck)
-    ckm = find_match(F, ck, r'core::Obj', min_arms=8)
+    ckm = find_match(F, ck, r'core::Obj', min_arms=3)
     verdict = {}
+
+    def alternatives(pat):
+        pat = strip_ref(pat)
+        if pat.get('k') == 'or':
+            out = []
+            for x in pat['s']:
+                out += alternatives(x)
+            return out
+        return [pat]
+    allkinds = ['Stream', 'Func', 'Instance', 'List', 'Dict', 'Null', 'Num', 'String', 'Vector', 'Bytes']
     for i, a in enumerate(ckm['arms']):
-        ps = pat_paths(a['pat'])
-        v = ps[-1].rsplit('::', 1)[-1]
         regn = arm_region(F, ckb, ckm, i)
-        names = [c.target.rsplit('::', 1)[-1] for c in ckb.calls_in(regn)]
-        verdict[v] = 'err' if any(n.endswith('_error') for n in names) else ('rec' if 'check_if_valid_key' in names else 'ok')
+        cs = ckb.calls_in(regn)
+        vd = 'err' if any(builds_error(F, c) for c in cs) else ('rec' if any(c.target.endswith('check_if_valid_key') for c in cs) else 'ok')
+        for alt in alternatives(a['pat']):
+            ps = pat_paths(alt)
+            if ps:
+                verdict.setdefault(ps[-1].rsplit('::', 1)[-1], vd)
+            else:
+                for k_ in allkinds:             # wildcard arm: every kind not decided by an earlier arm
+                    verdict.setdefault(k_, vd)
     wantv = {'Stream': 'err', 'Func': 'err', 'Instance': 'err', 'List': 'rec', 'Dict': 'rec', 'Null': 'ok', 'Num': 'ok', 'String': 'ok', 'Vector': 'ok', 'Bytes': 'ok'}
     for k, w in wantv.items():
         if verdict.get(k) == w:
